@@ -340,6 +340,30 @@ func c05Run(in []string) []string {
 			qi.ProcessEvent(e, op[2] == "1")
 			vu.Stat("qi_process")
 			out = "p1"
+		case "PX":
+			e, ok := events[c05ID(c05Atoi(op[1]))]
+			if !ok {
+				out = "ps"
+				break
+			}
+			// same id (same merged clock), creator outside the validator set: GetIdx returns 0
+			me := &dag.MutableBaseEvent{}
+			me.SetEpoch(e.Epoch())
+			me.SetSeq(e.Seq())
+			me.SetCreator(idx.ValidatorID(1000000))
+			me.SetParents(e.Parents())
+			me.SetLamport(e.Lamport())
+			var tail [24]byte
+			id := e.ID()
+			copy(tail[:], id[8:])
+			me.SetID(tail)
+			if me.ID() != e.ID() {
+				out = "BADID"
+				break
+			}
+			qi.ProcessEvent(&me.BaseEvent, op[2] == "1")
+			vu.Stat("qi_process_nonvalidator")
+			out = "p1"
 		case "G":
 			meds := qi.GetGlobalMedianSeqs()
 			m := qi.GetGlobalMatrix()
@@ -658,8 +682,20 @@ func c05Malform(r *rand.Rand, d *c05Dag, order []c05Ev) []c05Ev {
 				vu.Stat("mal_foreign_selfparent")
 			}
 		case 2:
+			// seq 1 with the parents kept: SelfParent() becomes nil.  Well formed (inside wf_stream) when
+			// the event has no self-child; the driver keeps the specification on in that case.
+			hasChild := false
+			for _, x := range out {
+				if x.seq > 1 && len(x.parents) > 0 && x.parents[0] == e.id {
+					hasChild = true
+				}
+			}
 			e.seq = 1
-			vu.Stat("mal_seq1_with_parents")
+			if hasChild {
+				vu.Stat("mal_seq1_with_parents")
+			} else {
+				vu.Stat("seq1_with_parents_in_domain")
+			}
 		default:
 			e.cr = r.Intn(d.nv)
 			vu.Stat("mal_creator")
